@@ -6,6 +6,8 @@ import ast
 from sa.engine.absinterp import Evaluator  # noqa: F401  (kept for the partition evaluation below)
 from sa.engine.context import Ctx
 from sa.engine.loader import AnalysisError, dotted, norm, short, walk_own, is_noise
+from sa.engine.callgraph import calls_in
+from sa.engine.loader import anorm
 from sa.engine.report import Finding, RuleReport
 from sa.rules.c02 import run_walk
 from sa.rules.common import DT, X, implementers
@@ -34,7 +36,7 @@ NOT_DECIDED = [
     "ragged rows and merged cells (grid geometry is value level)",
     "order of tables in the output", "index arithmetic of the trimming code (which column index is recorded as the last data column)"]
 TRUSTED = ["the tree grammars in sa/schemas", "ElementTree axis semantics", "openpyxl iter_rows(values_only=True) yields every cell of the used range"]
-FLOORS = {"C13-WALK": 60, "C13-KEY": 5, "C13-TRIM": 8, "C13-SPINE": 2, "C13-DIM": 5, "C13-VIEW": 5}
+FLOORS = {"C13-ROWS": 4, "C13-WALK": 60, "C13-KEY": 5, "C13-TRIM": 8, "C13-SPINE": 2, "C13-DIM": 5, "C13-VIEW": 5}
 
 W = s_docx.NS["w"]
 TABLE_WALKS = [
@@ -308,4 +310,32 @@ def _reuse(mod: str, fn: str, rule: str, desc: str):
 rule_dim = _reuse("c04", "rule_dim", "C13-DIM", "get_dim() is the shape of get_table() for every table class")
 rule_view = _reuse("c14", "rule_view", "C13-VIEW", "tables reachable from units are the tables of iterate_tables(), built from the same fields")
 
-RULES = [rule_walk, rule_key, rule_trim, rule_spine, rule_dim, rule_view]
+def rule_rows(ctx: Ctx) -> RuleReport:
+    """A row of the source is a row of the result, empty or not: no table builder appends a row only when its content says so."""
+    rep = RuleReport("C13-ROWS", "table builders append every row they have assembled: the append is not guarded by a test on the row's content")
+    n = 0
+    for label, rel, entry, *_ in TABLE_WALKS:
+        m_ = ctx.p.module(rel)
+        for fi in m_.functions.values():
+            lists = {a.targets[0].id for a in walk_own(fi.node) if isinstance(a, (ast.Assign,)) and len(a.targets) == 1 and isinstance(a.targets[0], ast.Name) and isinstance(a.value, ast.List) and not a.value.elts}
+            lists |= {a.target.id for a in walk_own(fi.node) if isinstance(a, ast.AnnAssign) and isinstance(a.target, ast.Name) and isinstance(a.value, ast.List) and not a.value.elts}
+            for c in calls_in(fi):
+                if not (isinstance(c.func, ast.Attribute) and c.func.attr == "append" and isinstance(c.func.value, ast.Name) and c.func.value.id in lists and len(c.args) == 1 and isinstance(c.args[0], ast.Name) and c.args[0].id in lists and c.args[0].id != c.func.value.id):
+                    continue
+                row, tab = c.args[0].id, c.func.value.id
+                # row-of-cells into table: the row list itself receives appends of cell text
+                n += 1
+                rep.unit(fi.key)
+                # (`if row:` only asks whether the row has any cell at all; a row element without cells has no column to report)
+                guards = [i for i in walk_own(fi.node) if isinstance(i, ast.If) and any(x is c for st in i.body for x in ast.walk(st)) and any(isinstance(x, ast.Name) and x.id == row for x in ast.walk(i.test))
+                          and not (isinstance(i.test, ast.Name) and i.test.id == row)]
+                if guards:
+                    rep.fail(Finding("C13-ROWS", rel, fi.qual, f"row appended only if {anorm(guards[0].test, fi.node)}", f"`{short(c, 40)}` runs only when `{short(guards[0].test, 50)}`: a source row whose cells are empty is left out, the table has fewer rows than the source and the rows below move up", line=c.lineno))
+                else:
+                    rep.ok({"builder": fi.qual, "append": f"{tab}.append({row})"})
+    if n < 4:
+        raise AnalysisError(f"C13-ROWS: only {n} row appends found in the table builders (4 confirmed)")
+    return rep
+
+
+RULES = [rule_walk, rule_key, rule_trim, rule_spine, rule_dim, rule_view, rule_rows]
